@@ -128,3 +128,58 @@ def _bind_target(t, value, out):
                 _bind_target(x, ("unpack", value, i), out)
     elif isinstance(t, ast.Starred):
         _bind_target(t.value, ("unpack", value, -1), out)
+
+
+def is_cache_switch_call(db: ProgramDB, fn: FuncInfo, call: ast.Call) -> bool:
+    """`is_caching_enabled()` or a method through which the operators ask for it: every implementation of that method
+    in the receiver's hierarchy returns `is_caching_enabled()` or a constant False (a class that opts out)."""
+    t = resolve_call_target(db, fn, call)
+    if isinstance(t, FuncInfo) and t.qualname == "cache_data:is_caching_enabled":
+        return True
+    f = call.func
+    if isinstance(f, ast.Attribute) and isinstance(f.value, ast.Name) and f.value.id == "self" and fn.cls is not None \
+            and not call.args and not call.keywords:
+        impls = []
+        root = fn.cls
+        # all implementations in the whole hierarchy of the class that declares the method
+        decl = None
+        for c in fn.cls.mro:
+            if f.attr in c.methods:
+                decl = c
+        if decl is None:
+            return False
+        for c in decl.all_subclasses():
+            if f.attr in c.methods:
+                impls.append(c.methods[f.attr])
+        if not impls:
+            return False
+        for m in impls:
+            body = strip_docstring(m.node.body)
+            body = [s for s in body if not isinstance(s, ast.Pass)]
+            if len(body) != 1 or not isinstance(body[0], ast.Return):
+                return False
+            v = body[0].value
+            if isinstance(v, ast.Constant) and v.value is False:
+                continue
+            if isinstance(v, ast.Call):
+                tt = resolve_call_target(db, m, v)
+                if isinstance(tt, FuncInfo) and tt.qualname == "cache_data:is_caching_enabled":
+                    continue
+            return False
+        return True
+    return False
+
+
+def cache_switch_value_for(db: ProgramDB, cls: ClassInfo, method_name: str) -> Optional[str]:
+    """'switch' if cls's effective implementation returns is_caching_enabled(), 'off' if it returns False."""
+    m = cls.lookup(method_name)
+    if m is None:
+        return None
+    body = [s for s in strip_docstring(m.node.body) if not isinstance(s, ast.Pass)]
+    if len(body) == 1 and isinstance(body[0], ast.Return):
+        v = body[0].value
+        if isinstance(v, ast.Constant) and v.value is False:
+            return "off"
+        if isinstance(v, ast.Call):
+            return "switch"
+    return None
